@@ -8,6 +8,8 @@ Directives (one per line, arguments shlex-style key=value):
   //@^ <line emitted above the fn (attributes: #[kani::ensures(..)] ...)>
   //@| <line spliced between signature and body (Verus requires/ensures/decreases)>
   //@loop <k>| <line spliced before the body brace of the k-th loop (1-based)>
+  //@loopiter <k> <name>   (Verus: the k-th loop, a `for PAT in EXPR`, becomes `for PAT in name: EXPR` — names the
+                            ghost iterator so that the invariant can speak about the position; nothing else changes)
   //@item file=.. kind=struct|enum name=N [keep=a,b,c] [flags=..]
   //@semi file=.. kind=const|static|type name=N [flags=..]
   //@carve file=.. [impl=..] fn=f from="regex" to="regex" [flags=..]
@@ -88,7 +90,7 @@ def render(template_text, repo, ex):
             raise rsx.Unsupported('bad directive: ' + st)
         kind, rest = mo.group(1), mo.group(2)
         a = _args(rest)
-        above, mid, loops = [], [], {}
+        above, mid, loops, loopiters = [], [], {}, {}
         i += 1
         while i < len(lines):
             s2 = lines[i].strip()
@@ -96,6 +98,9 @@ def render(template_text, repo, ex):
                 above.append(s2[4:].lstrip(' ') if False else lines[i].strip()[4:])
             elif s2.startswith('//@|'):
                 mid.append(s2[4:])
+            elif re.match(r'//@loopiter\s+(\d+)\s+(\w+)', s2):
+                lm = re.match(r'//@loopiter\s+(\d+)\s+(\w+)', s2)
+                loopiters[int(lm.group(1))] = lm.group(2)
             elif re.match(r'//@loop\s+(\d+)\|', s2):
                 lm = re.match(r'//@loop\s+(\d+)\|(.*)$', s2)
                 loops.setdefault(int(lm.group(1)), []).append(lm.group(2))
@@ -136,13 +141,26 @@ def render(template_text, repo, ex):
             ex.fns.append(sel)
             header, body = fn.header, fn.body
             # loop splices first (positions relative to verbatim body)
-            if loops:
+            if loops or loopiters:
                 pos = rsx.loop_positions(body)
-                for k in sorted(loops, reverse=True):
+                for k in sorted(set(loops) | set(loopiters), reverse=True):
                     if k > len(pos):
                         raise rsx.LostAnchor('fn %s has %d loops, contract names loop %d' % (a['name'], len(pos), k))
                     p = pos[k - 1]
-                    body = body[:p] + '\n' + '\n'.join(loops[k]) + '\n' + body[p:]
+                    if k in loops:
+                        body = body[:p] + '\n' + '\n'.join(loops[k]) + '\n' + body[p:]
+                    if k in loopiters:
+                        bm = rsx.mask(body[:p])
+                        f = [x for x in re.finditer(r'\bfor\b', bm)]
+                        if not f:
+                            raise rsx.LostAnchor('loop %d of fn %s is not a for loop' % (k, a['name']))
+                        hs = f[-1].start()
+                        mo_in = re.search(r'\bin\b\s*', bm[hs:])
+                        if not mo_in:
+                            raise rsx.LostAnchor('loop %d of fn %s: no `in`' % (k, a['name']))
+                        q = hs + mo_in.end()
+                        body = body[:q] + loopiters[k] + ': ' + body[q:]
+                        ex.drop('for-loop iterator named (`for x in %s: expr`) in %s' % (loopiters[k], a['name']))
                 ex.drop('loop contract spliced into ' + a['name'])
             if 'ret' in a:
                 header = rsx.name_return(header, a['ret'])
